@@ -131,6 +131,14 @@ class LiteralEnumProperty(PropertyProtocol):
                     ),
                     schemas,
                 )
+        if schemas.module_name_taken(class_info):
+            return (
+                PropertyError(
+                    detail=f'Enum "{class_info.name}" would be written to the module "{class_info.module_name}" of another class',
+                    data=data,
+                ),
+                schemas,
+            )
 
         prop = LiteralEnumProperty(
             name=name,
